@@ -40,10 +40,15 @@ type State struct {
 	next   string
 	names  map[string]*ssa.Alloc // most recent alloc per source name on this path
 	dead   bool
+	iters  map[*ssa.Range]string // visited sets of map iterators
+	lastRange *ssa.Range
+	defers []*deferredCall
+	chans  *chanState
 }
 
 func (s *State) clone() *State {
-	n := &State{pc: s.pc, next: s.next, dead: s.dead,
+	n := &State{pc: s.pc, next: s.next, dead: s.dead, lastRange: s.lastRange, chans: s.chans.clone(),
+		iters: make(map[*ssa.Range]string, len(s.iters)), defers: append([]*deferredCall{}, s.defers...),
 		locals: make(map[*ssa.Alloc]string, len(s.locals)),
 		heaps:  make(map[string]string, len(s.heaps)),
 		ghosts: make(map[string]string, len(s.ghosts)),
@@ -59,6 +64,9 @@ func (s *State) clone() *State {
 	}
 	for k, v := range s.names {
 		n.names[k] = v
+	}
+	for k, v := range s.iters {
+		n.iters[k] = v
 	}
 	return n
 }
@@ -111,7 +119,7 @@ type FnGen struct {
 	fnPatsDone bool
 	fnPatsV    []*locPat
 	frameN, callN int
-	deferred []deferredCall
+	closures map[*ssa.MakeClosure][]capturedVar
 }
 
 type coverPoint struct {
@@ -556,7 +564,7 @@ func (g *FnGen) merge(b *ssa.BasicBlock, ins []*State) *State {
 		}
 	}
 	if len(live) == 0 {
-		return &State{pc: "false", dead: true, locals: map[*ssa.Alloc]string{}, heaps: map[string]string{}, ghosts: map[string]string{}, names: map[string]*ssa.Alloc{}, next: "0"}
+		return &State{pc: "false", dead: true, locals: map[*ssa.Alloc]string{}, heaps: map[string]string{}, ghosts: map[string]string{}, names: map[string]*ssa.Alloc{}, iters: map[*ssa.Range]string{}, next: "0"}
 	}
 	if len(live) == 1 {
 		return live[0].clone()
@@ -629,6 +637,23 @@ func (g *FnGen) merge(b *ssa.BasicBlock, ins []*State) *State {
 	}
 	t, _ := mergeTerm("next", "Int", func(s *State) (string, bool) { return s.next, true })
 	out.next = t
+	for rg := range live[0].iters {
+		rg := rg
+		mt := rg.X.Type().Underlying().(*types.Map)
+		_, ds := g.mapSorts(mt)
+		t, ok := mergeTerm("visited", ds, func(s *State) (string, bool) { t, ok := s.iters[rg]; return t, ok })
+		if ok {
+			out.iters[rg] = t
+		} else {
+			delete(out.iters, rg)
+		}
+	}
+	for _, s := range live[1:] {
+		if len(s.defers) != len(live[0].defers) {
+			panic(genErr("%s: conditional defer (different defer stacks at a join) is not supported", g.fn.Name()))
+		}
+	}
+	g.mergeChans(out, live, mergeTerm)
 	for name, a := range live[0].names {
 		for _, s := range live[1:] {
 			if s.names[name] != a {
@@ -647,7 +672,7 @@ func (g *FnGen) run() {
 		panic(genErr("%s has no body", fn.Name()))
 	}
 	g.findLoops()
-	st := &State{pc: "true", locals: map[*ssa.Alloc]string{}, heaps: map[string]string{}, ghosts: map[string]string{}, names: map[string]*ssa.Alloc{}}
+	st := &State{pc: "true", locals: map[*ssa.Alloc]string{}, heaps: map[string]string{}, ghosts: map[string]string{}, names: map[string]*ssa.Alloc{}, iters: map[*ssa.Range]string{}}
 	g.declare("next!0", "Int")
 	st.next = "next!0"
 	g.defs = append(g.defs, app(">", "next!0", "0"))
@@ -738,8 +763,17 @@ func (g *FnGen) loopHead(s *State, li *loopInfo) {
 	for b := range li.blocks {
 		for _, ins := range b.Instrs {
 			g.scanEffects(ins, assigned, heapSorts, ghostsMod, &allocs)
+			if nx, ok := ins.(*ssa.Next); ok {
+				if rg, ok := nx.Iter.(*ssa.Range); ok {
+					if _, live := s.iters[rg]; live {
+						_, ds := g.mapSorts(rg.X.Type().Underlying().(*types.Map))
+						s.iters[rg] = g.fresh("visited_h", ds)
+					}
+				}
+			}
 		}
 	}
+	g.havocChans(s, li)
 	var allocList []*ssa.Alloc
 	for a := range assigned {
 		if _, ok := s.locals[a]; ok {
@@ -833,7 +867,9 @@ func (g *FnGen) scanEffects(ins ssa.Instruction, assigned map[*ssa.Alloc]bool, h
 			g.cellSorts(ms.Type().Underlying().(*types.Slice).Elem(), heapSorts)
 		}
 	case *ssa.MapUpdate:
-		panic(genErr("map update inside loop not supported yet"))
+		mt := x.Map.Type().Underlying().(*types.Map)
+		vs, ds := g.mapSorts(mt)
+		heapSorts[vs], heapSorts[ds] = true, true
 	case ssa.CallInstruction:
 		com := x.Common()
 		if b, ok := com.Value.(*ssa.Builtin); ok {
@@ -843,10 +879,30 @@ func (g *FnGen) scanEffects(ins ssa.Instruction, assigned map[*ssa.Alloc]bool, h
 			}
 			return
 		}
-		if _, ok := com.Value.(*ssa.MakeClosure); ok {
-			panic(genErr("closure call inside loop not supported yet"))
+		if b, ok := com.Value.(*ssa.Builtin); ok && b.Name() == "delete" {
+			mt := com.Args[0].Type().Underlying().(*types.Map)
+			_, ds := g.mapSorts(mt)
+			heapSorts[ds] = true
+			return
 		}
-		fc, ct := g.c.calleeContract(g, com)
+		if g.intrinsicSorts(com, heapSorts) {
+			return
+		}
+		var fc *FuncContract
+		var ct *callTarget
+		if mc, ok := com.Value.(*ssa.MakeClosure); ok && !com.IsInvoke() {
+			fn := mc.Fn.(*ssa.Function)
+			fc = g.c.contracts[g.c.fnKey(fn)]
+			ct = &callTarget{fc: fc, key: g.c.fnKey(fn), sig: fn.Signature, fn: fn, caps: map[string]capturedVar{}}
+			for i := 0; i < fn.Signature.Params().Len(); i++ {
+				ct.names = append(ct.names, fn.Signature.Params().At(i).Name())
+			}
+			for i, fv := range fn.FreeVars {
+				ct.caps[fv.Name()] = capturedVar{"?", mc.Bindings[i].Type().(*types.Pointer).Elem()}
+			}
+		} else {
+			fc, ct = g.c.calleeContract(g, com)
+		}
 		if fc == nil {
 			return
 		}
@@ -885,6 +941,11 @@ func rootAlloc(v ssa.Value) *ssa.Alloc {
 
 // cellSorts adds the primitive sorts of all cells of a value of type t.
 func (g *FnGen) cellSorts(t types.Type, out map[string]bool) {
+	if mc, ok := t.(*mapCells); ok {
+		vs, ds := g.mapSorts(mc.m)
+		out[vs], out[ds] = true, true
+		return
+	}
 	if si := g.c.reg.structOf(t); si != nil {
 		for _, f := range si.fields {
 			g.cellSorts(f.typ, out)
